@@ -364,7 +364,11 @@ func RunC05(d *Driver) *Report {
 			r.Disagree(Case{Stream: "base", Input: base, Real: perr + pp, Note: "harness: base program must be valid"})
 			continue
 		}
-		for _, e := range c05Edits(base) {
+		edits := c05Edits(base)
+		if bi == 0 {
+			edits = append(edits, c05ScopeEdits()...)
+		}
+		for _, e := range edits {
 			nedit++
 			r.Count("edit:"+e.src, true)
 			r.Hist("rule", e.rule)
@@ -399,9 +403,100 @@ func RunC05(d *Driver) *Report {
 	if berr != nil {
 		r.Disagree(Case{Stream: "build", Input: "go build", Real: berr.Error()})
 	}
-	r.Rule = fmt.Sprintf("termination analysis: alwaysTerminates of every statement of %d accepted programs (%d constructed function bodies with every combination of returning / non-returning if, else-if, else branches, loops, nesting, comments and blank lines; generated programs; documentation examples) compared with Model/Static.lean, and for each constructed body exactly one of {body alone, body + return} must be accepted, as the analysis says. Rule-breaking edits: %d programs = 2 rich valid programs x every line position x 17 edits of 11 kinds (unused / undeclared variable, redeclaration, type mismatch, argument count, unknown function, stray text after a statement and after end, break outside a loop, value returned from handler / procedure / top level) + unreachable code after every return / break (directly and after comment + blank line) + missing return; each must be rejected with a located error, produce no platform call and no output through the library entry point, and (%d of them) exit non-zero with empty stdout and errors on stderr through the rebuilt `evy run`. Non-trivial = distinct program", nterm, len(bodies), nedit, nbin)
+	r.Rule = fmt.Sprintf("termination analysis: alwaysTerminates of every statement of %d accepted programs (%d constructed function bodies with every combination of returning / non-returning if, else-if, else branches, loops, nesting, comments and blank lines; generated programs; documentation examples) compared with Model/Static.lean, and for each constructed body exactly one of {body alone, body + return} must be accepted, as the analysis says. Rule-breaking edits: %d programs = 2 rich valid programs x every line position x 17 edits of 11 kinds (unused / undeclared variable, redeclaration, type mismatch, argument count, unknown function, stray text after a statement and after end, break outside a loop, value returned from handler / procedure / top level) + 120 constructed programs for block scoping (use after the block, in a sibling branch of every if chain position, in another function or handler, before the declaration), event handler parameter lists (every wrong type and count for every event), redeclared functions / handlers / parameters, argument and return types + unreachable code after every return / break (directly and after comment + blank line) + missing return; each must be rejected with a located error, produce no platform call and no output through the library entry point, and (%d of them) exit non-zero with empty stdout and errors on stderr through the rebuilt `evy run`. Non-trivial = distinct program", nterm, len(bodies), nedit, nbin)
 	r.DriverCalls = d.N
 	return r
+}
+
+// c05ScopeEdits: a variable is visible only in its block: uses in a later sibling branch, after the
+// block, in another function or handler, or before the declaration must be rejected.
+func c05ScopeEdits() []c05Edit {
+	var out []c05Edit
+	add := func(rule, src string) { out = append(out, c05Edit{rule, src}) }
+	blocks := [][2]string{
+		{"if n > 0\n    zq := 1\n    print zq\nend\n", "if"},
+		{"if n > 5\n    print 0\nelse if n > 0\n    zq := 1\n    print zq\nend\n", "else-if"},
+		{"if n > 5\n    print 0\nelse\n    zq := 1\n    print zq\nend\n", "else"},
+		{"while n > 0\n    zq := 1\n    print zq\n    n = n - 1\nend\n", "while"},
+		{"for i := range 2\n    zq := i\n    print zq\nend\n", "for"},
+		{"for zq := range 2\n    print zq\nend\n", "loop variable"},
+	}
+	for _, b := range blocks {
+		add("undeclared variable (out of scope after "+b[1]+")", "n := 1\n"+b[0]+"print zq\n")
+		add("undeclared variable (out of scope after "+b[1]+")", "n := 1\nfunc f\n"+indent(b[0], 1)+"    print zq\nend\nf\nprint n\n")
+		add("undeclared variable (out of scope after "+b[1]+")", "n := 1\non key k:string\n"+indent(b[0], 1)+"    print zq k\nend\n")
+	}
+	// sibling branches of one if chain, in every order
+	branches := []string{"if n > 5", "else if n > 3", "else if n > 1", "else"}
+	for decl := 0; decl < len(branches); decl++ {
+		for use := 0; use < len(branches); use++ {
+			if use == decl {
+				continue
+			}
+			src := "n := 1\n"
+			for i, br := range branches {
+				src += br + "\n"
+				switch i {
+				case decl:
+					src += "    zq := 1\n    print zq\n"
+				case use:
+					src += "    print zq\n"
+				default:
+					src += "    print 0\n"
+				}
+			}
+			src += "end\n"
+			add("undeclared variable (declared in a sibling branch)", src)
+			add("undeclared variable (declared in a sibling branch)", "func f n:num\n"+indent(strings.TrimPrefix(src, "n := 1\n"), 1)+"end\nf 1\n")
+		}
+	}
+	add("undeclared variable (local of another function)", "func f\n    zq := 1\n    print zq\nend\nfunc g\n    print zq\nend\nf\ng\n")
+	add("undeclared variable (parameter of another function)", "func f zq:num\n    print zq\nend\nf 1\nprint zq\n")
+	add("undeclared variable (local of a handler)", "on key k:string\n    zq := k\n    print zq\nend\nprint zq\n")
+	add("undeclared variable (used before its declaration)", "print zq\nzq := 1\nprint zq\n")
+	add("undeclared variable (used in its own initialiser)", "zq := zq + 1\nprint zq\n")
+	// event handler parameter lists
+	handlers := map[string][]string{"key": {"string"}, "down": {"num", "num"}, "up": {"num", "num"}, "move": {"num", "num"}, "animate": {"num"}, "input": {"string", "string"}}
+	for _, ev := range SortedKeys(handlers) {
+		want := handlers[ev]
+		for i := range want {
+			for _, wrong := range []string{"any", "bool", "[]num", "{}any", map[string]string{"num": "string", "string": "num"}[want[i]]} {
+				ps, us := "", ""
+				for j, t := range want {
+					if j == i {
+						t = wrong
+					}
+					ps += fmt.Sprintf(" p%d:%s", j, t)
+					us += fmt.Sprintf(" p%d", j)
+				}
+				add("type mismatch (event handler parameter)", "print 1\non "+ev+ps+"\n    print 2"+us+"\nend\n")
+			}
+		}
+		extra, us := "", ""
+		for j, t := range want {
+			extra += fmt.Sprintf(" p%d:%s", j, t)
+			us += fmt.Sprintf(" p%d", j)
+		}
+		add("wrong number of arguments (event handler parameters)", "print 1\non "+ev+extra+" q:num\n    print 2"+us+" q\nend\n")
+		if len(want) > 1 {
+			add("wrong number of arguments (event handler parameters)", "print 1\non "+ev+" p0:"+want[0]+"\n    print 2 p0\nend\n")
+		}
+	}
+	add("unknown function (unknown event)", "print 1\non zqev\n    print 2\nend\n")
+	add("redeclaration in the same scope (two handlers for one event)", "print 1\non key\n    print 2\nend\non key\n    print 3\nend\n")
+	add("redeclaration in the same scope (two functions of one name)", "print 1\nfunc f\n    print 2\nend\nfunc f\n    print 3\nend\nf\n")
+	add("redeclaration in the same scope (parameter names)", "func f a:num a:num\n    print a\nend\nf 1 2\n")
+	add("redeclaration in the same scope (parameter and local)", "func f a:num\n    a := 2\n    print a\nend\nf 1\n")
+	add("wrong number of arguments", "func f a:num b:num\n    print a b\nend\nf 1\n")
+	add("wrong number of arguments", "func f a:num b:num\n    print a b\nend\nf 1 2 3\n")
+	add("wrong number of arguments", "func f\n    print 1\nend\nf 1\n")
+	add("type mismatch (argument)", "func f a:num\n    print a\nend\nf \"s\"\n")
+	add("type mismatch (variadic argument)", "func f a:num...\n    print a\nend\nf 1 \"s\"\n")
+	add("type mismatch (return value)", "func f:num\n    return \"s\"\nend\nprint (f)\n")
+	add("value returned from a procedure", "func f\n    return 1\nend\nf\n")
+	add("missing return (bare return in a typed function)", "func f:num\n    return\nend\nprint (f)\n")
+	add("unused variable (parameter is fine, local is not)", "func f a:num\n    b := a\nend\nf 1\n")
+	return out
 }
 
 func c05Known(e c05Edit) string {
